@@ -329,6 +329,18 @@ func (a *ownAnalysis) lvalKind(e ast.Expr, depth int) ownKind {
 	if a.isLValLit(e) {
 		return ownFresh
 	}
+	// a local variable of the STRUCT type LVal is the function's own copy of a header
+	// (`sorted := *list; sorted.sealed = false; sorted.Cells = <fresh>; list = &sorted`): the
+	// variable and its address are storage of this function — provided the cells it copied
+	// along with the header are replaced by a slice of its own
+	if ue, ok := e.(*ast.UnaryExpr); ok && ue.Op == token.AND {
+		if a.ownStructLocal(ue.X, depth) {
+			return ownFresh
+		}
+	}
+	if a.ownStructLocal(e, depth) {
+		return ownFresh
+	}
 	if ce, ok := e.(*ast.CallExpr); ok {
 		if fn := originOf(Callee(a.info, ce)); fn != nil {
 			if a.freshFns[fn] {
@@ -444,6 +456,98 @@ func (a *ownAnalysis) lvalKind(e ast.Expr, depth int) ownKind {
 	return ownBorrowed
 }
 
+// ownStructLocal: e is a local variable (not a parameter) whose type is the struct lisp.LVal itself,
+// and — when it was initialised by copying another value's header (`x := *y`) — its Cells field is
+// assigned a slice this function allocated.
+func (a *ownAnalysis) ownStructLocal(e ast.Expr, depth int) bool {
+	o := identObj(a.info, ast.Unparen(e))
+	if o == nil || a.lvalPtr == nil || depth > 3 {
+		return false
+	}
+	v, ok := o.(*types.Var)
+	if !ok || v.IsField() || v.Parent() == a.u.Pkg.Types.Scope() {
+		return false
+	}
+	if !types.Identical(types.NewPointer(v.Type()), a.lvalPtr) {
+		return false
+	}
+	sig := a.u.Obj.Type().(*types.Signature)
+	for i := 0; i < sig.Params().Len(); i++ {
+		if sig.Params().At(i) == o {
+			return false
+		}
+	}
+	copied, cellsOwn := false, false
+	ast.Inspect(a.u.Decl.Body, func(m ast.Node) bool {
+		switch x := m.(type) {
+		case *ast.AssignStmt:
+			if len(x.Lhs) != len(x.Rhs) {
+				return true
+			}
+			for i, l := range x.Lhs {
+				if identObj(a.info, l) == o {
+					if _, isLit := ast.Unparen(x.Rhs[i]).(*ast.CompositeLit); !isLit {
+						copied = true
+					}
+				}
+				if se, ok := ast.Unparen(l).(*ast.SelectorExpr); ok && identObj(a.info, se.X) == o && FieldOfSelector(a.info, se) == a.cellsFld {
+					p := a.sliceProvOf(x.Rhs[i], depth+1)
+					if !p.borrowed && !p.unknown {
+						cellsOwn = true
+					}
+				}
+			}
+		case *ast.ValueSpec:
+			for i, nm := range x.Names {
+				if a.info.Defs[nm] == o && i < len(x.Values) {
+					if _, isLit := ast.Unparen(x.Values[i]).(*ast.CompositeLit); !isLit {
+						copied = true
+					}
+				}
+			}
+		}
+		return true
+	})
+	return !copied || cellsOwn
+}
+
+var sliceParamLifting = map[string]bool{}
+
+// liftSliceParam: provenance of the i-th parameter of a private helper, taken from every call site.
+func (a *ownAnalysis) liftSliceParam(i int, depth int) *sliceProv {
+	fn := a.u.Obj
+	if fn == nil || fn.Exported() || depth > 2 {
+		return nil
+	}
+	key := fmt.Sprintf("%s#%d", FuncName(fn), i)
+	if sliceParamLifting[key] {
+		return nil
+	}
+	sliceParamLifting[key] = true
+	defer delete(sliceParamLifting, key)
+	sites, refs := a.c.CallsTo(nil, fn)
+	if len(refs) > 0 || len(sites) == 0 {
+		return nil
+	}
+	out := &sliceProv{clamped: true}
+	for _, st := range sites {
+		if st.Lit != nil || i >= len(st.Call.Args) || st.Unit.Obj == fn {
+			return nil
+		}
+		ca := newOwnAnalysis(a.c, st.Unit)
+		q := ca.sliceProvOf(st.Call.Args[i], depth+1)
+		if q.unknown || q.borrowed || len(q.owners) > 0 {
+			return nil // only slices the caller itself owns are lifted; anything else stays the helper's problem
+		}
+		out.fresh = out.fresh || q.fresh
+		out.otherField = out.otherField || q.otherField
+	}
+	if !out.fresh && !out.otherField {
+		return nil
+	}
+	return out
+}
+
 // isFreshArray: e is a local whose every assignment is a call to lisp.Array /
 // lisp.Vector (or nil).
 func (a *ownAnalysis) isFreshArray(e ast.Expr, depth int) bool {
@@ -529,6 +633,12 @@ func (a *ownAnalysis) sliceProvOf(e ast.Expr, depth int) *sliceProv {
 				if i == 0 && a.c.mapEntriesMethods()[originOf(a.u.Obj)] && a.c.entriesBufferContract() {
 					p.fresh = true
 					return p
+				}
+				// a private helper (unexported, never taken as a value): the slice is what its callers
+				// pass — `sortEntriesByKey(entries)` called only by an Entries implementation on the
+				// buffer it was handed
+				if lifted := a.liftSliceParam(i, depth); lifted != nil {
+					return lifted
 				}
 				p.borrowed, p.clamped, p.unknown = true, false, true
 				return p
